@@ -1,5 +1,6 @@
 """gen_engine.py — facts about the engine code that the engine model is parametrised by.
 Each is read off a named function; a reshaped function raises GenError (loudly)."""
+import os
 import re
 import vlib
 from gen_tables import fn_body, strip_comments, write_if_changed, GenError
@@ -104,6 +105,35 @@ def gen_engine():
     facts.update({"engine.alias_current": alias, "engine.warnings_cleared": warn,
              "engine.observer_removal_checked": ob_checked, "engine.remove_flow_checked": rf_checked,
              "engine.ovf_panics": ovf})
+    # 12. where the engine calls INTO the host (observer / error handler / external function) and who calls those
+    # places: the model's event log is written by exactly these (Shell/Events.v: the one writer of the log)
+    def enclosing_fn(text, pos):
+        ms = list(re.finditer(r"\bfn\s+(\w+)\s*[<(]", text[:pos]))
+        return ms[-1].group(1) if ms else "?"
+    sites = []
+    rt = os.path.join(vlib.REPO, "runtime", "src")
+    for root_, _, fs in os.walk(rt):
+        for f in sorted(fs):
+            if not f.endswith(".rs") or f == "verif.rs":
+                continue
+            rel = os.path.relpath(os.path.join(root_, f), rt)
+            txt = strip_comments(open(os.path.join(root_, f)).read())
+            for pat, tag in ((r"\.borrow_mut\(\)\s*\.changed\(", "observer"),
+                             (r"\.borrow_mut\(\)\s*\.error\(", "handler"),
+                             (r"\.borrow_mut\(\)\s*\.call\(\s*func_name", "external"),
+                             (r"\bself\.notify_variable_changed\(", "->observer"),
+                             (r"\bself\.call_external_function\(", "->external")):
+                for m in re.finditer(pat, txt):
+                    sites.append("%s:%s:%s" % (rel, enclosing_fn(txt, m.start()), tag))
+    sites.sort()
+    expected = sorted([
+        "story/variable_observer.rs:notify_variable_changed:observer",
+        "story/progress.rs:continue_internal:handler", "story/progress.rs:continue_internal:handler",
+        "story/external_functions.rs:call_external_function:external",
+        "story/state.rs:set_variable:->observer", "story/progress.rs:continue_internal:->observer",
+        "story/control_logic.rs:perform_logic_and_flow_control:->external"])
+    host_ok = sites == expected
+    facts.update({"engine.host_call_sites": sites, "engine.host_calls_confined": host_ok})
     b = lambda x: "true" if x else "false"
     out = ("(* GENERATED by tools/gen_engine.py from runtime/src/{story_state.rs,story/variable_observer.rs,"
            "story/control_logic.rs} — do not edit *)\n"
@@ -120,5 +150,9 @@ def gen_engine():
            f"Definition guard_remove_flow : bool := {b(g_rmflow)}.\n"
            f"Definition guard_switch_default : bool := {b(g_swdef)}.\n"
            f"Definition guard_load : bool := {b(g_load)}.\n"
-           f"Definition counter_dec_first : bool := {b(dec_first)}.\n")
+           f"Definition counter_dec_first : bool := {b(dec_first)}.\n"
+           "(* the engine calls into the host (observer / error handler / external function) at exactly the places the\n"
+           "   model logs an event: notify_variable_changed (from continue_internal and set_variable), the delivery block\n"
+           "   of continue_internal, call_external_function (from perform_logic_and_flow_control) *)\n"
+           f"Definition host_calls_confined : bool := {b(host_ok)}.\n")
     return write_if_changed("theories/Gen/EngineGen.v", out), facts
